@@ -32,7 +32,7 @@ Lemma wr_put : forall w q e, wr w (q ++ [e]) <= wr w q.
 Proof. destruct w, q; cbn; lia. Qed.
 Lemma qsum_put : forall q e, qsum (q ++ [e]) = qsum q + qw e.
 Proof. intros. rewrite qsum_app. cbn. lia. Qed.
-Ltac dinv H := destruct H as [Hfl Hst Hin Hsc Hsr Hunf Hfifo Hlog Hw0 Hquiet Hw7 Hjoin Hpre Hdr Hom How Hop Hnp].
+Ltac dinv H := destruct H as [Hfl Hst Hin Hsc Hsr Hunf Hfifo Hlog Hw0 Hquiet Hw7 Hjoin Hpre Hdr Hom How Hop Hnp Htok].
 Ltac flds := cbn [a_sh a_m a_w a_p a_done flags queue unfinished started inited stop_called stop_returned puts pre_stop log
                   mnum flags_of winfl_n wbegun wheld wopen wpend mpend set_flags set_queue set_log ph_pend fst snd] in *.
 Ltac imp := intros; try lia; try congruence;
@@ -44,7 +44,18 @@ Ltac imp := intros; try lia; try congruence;
   | |- prefix _ (_ ++ _) => apply prefix_app_r; imp
   end.
 Ltac w0 := match goal with H : _ -> ?w = W0 |- _ => let E := fresh in assert (E : w = W0) by (apply H; lia); subst w end.
-Ltac fin := constructor; unfold sh_put in *; flds; try reflexivity; try assumption; try imp.
+Ltac tk :=
+  let x := fresh "x" in
+  intros x;
+  match goal with H : forall y : N, tokens y _ _ = _ |- _ => specialize (H x) end;
+  unfold tokens, ppend in *; flds;
+  try match goal with
+      | Hp : nth_error ?ps ?i = Some ?p |- context [sumf ?f (upd ?i ?new ?ps)] =>
+          let S := fresh "S" in pose proof (sumf_upd f i new ps p Hp) as S; cbn beta in S; cbn [fst snd ph_pend] in S
+      end;
+  repeat first [rewrite ecnt_app in * | rewrite ecnt_cons in * | rewrite ecnt_nil in * | rewrite map_app in * | rewrite cnt_app in *];
+  cbn [map cnt] in *; lia.
+Ltac fin := constructor; unfold sh_put in *; flds; try reflexivity; try assumption; try imp; try tk.
 Ltac rk := unfold arank; flds; cbn [mrank wr ph_rank]; try lia.
 
 Lemma sim_main : forall c a s' l, AInv c a -> step the_prog true 0 (conc c a) = Some (s', l) -> SimRes c a 0 s' l.
